@@ -5,12 +5,15 @@
 package zzverifrt
 
 import (
+	"encoding/hex"
 	"encoding/json"
 	"fmt"
 	"math/big"
 	"os"
+	"path/filepath"
 	"sort"
 	"strconv"
+	"strings"
 )
 
 var (
@@ -166,4 +169,112 @@ func StringR(name string, n int, lo, hi byte) string {
 		}
 	}
 	return string(b)
+}
+
+
+// ---------- file-system scenarios
+
+var tempDir string
+
+// ModelRoot is the root directory of the engine's file-system model.
+const ModelRoot = "/vr"
+
+// TempDir returns the data root: a directory of the engine's file-system model, or a
+// fresh real temporary directory when the harness is replayed natively.
+func TempDir() string {
+	if tempDir == "" {
+		d, err := os.MkdirTemp("", "verifrt")
+		if err != nil {
+			panic(err)
+		}
+		tempDir = d
+	}
+	return tempDir
+}
+
+// Cleanup removes the native temporary directory.
+func Cleanup() {
+	if tempDir != "" {
+		os.RemoveAll(tempDir)
+		tempDir = ""
+	}
+}
+
+type fsImage struct {
+	Dirs  []string `json:"dirs"`
+	Files map[string]struct {
+		Size   int64       `json:"size"`
+		Chunks [][2]string `json:"chunks"` // offset (decimal), hex data
+	} `json:"files"`
+}
+
+func restoreImage(tag string) bool {
+	load()
+	js, ok := model["fsimage:"+tag]
+	if !ok {
+		return false
+	}
+	var img fsImage
+	if err := json.Unmarshal([]byte(js), &img); err != nil {
+		panic("zzverifrt: bad fs image: " + err.Error())
+	}
+	root := TempDir()
+	ents, _ := os.ReadDir(root)
+	for _, e := range ents {
+		os.RemoveAll(filepath.Join(root, e.Name()))
+	}
+	mapPath := func(p string) string { return filepath.Join(root, strings.TrimPrefix(p, ModelRoot)) }
+	sort.Strings(img.Dirs)
+	for _, d := range img.Dirs {
+		if err := os.MkdirAll(mapPath(d), 0o755); err != nil {
+			panic(err)
+		}
+	}
+	for p, f := range img.Files {
+		fp, err := os.OpenFile(mapPath(p), os.O_CREATE|os.O_RDWR|os.O_TRUNC, 0o644)
+		if err != nil {
+			panic(err)
+		}
+		for _, c := range f.Chunks {
+			off, _ := strconv.ParseInt(c[0], 10, 64)
+			data, err := hex.DecodeString(c[1])
+			if err != nil {
+				panic(err)
+			}
+			if _, err := fp.WriteAt(data, off); err != nil {
+				panic(err)
+			}
+		}
+		if err := fp.Truncate(f.Size); err != nil {
+			panic(err)
+		}
+		fp.Close()
+	}
+	return true
+}
+
+// Crashable runs f as "a server process". Under the engine every file-mutating call
+// inside f is a crash point (rt.Opt("crash", 1)); when the process is killed, f is
+// abandoned and Crashable returns true with the file system as the calls so far left
+// it. Natively (replay) the post-crash disk image computed by the engine is restored
+// into the temporary directory instead of running f.
+func Crashable(tag string, f func()) (crashed bool) {
+	if restoreImage(tag) {
+		return true
+	}
+	f()
+	return false
+}
+
+// PowerLoss (engine): drop or keep every write that was not made durable by fsync/sync.
+// Natively the engine's image of the surviving state is restored.
+func PowerLoss(tag string) { restoreImage(tag) }
+
+// FileBytes reads a whole file (used by oracles that compare disk contents).
+func FileBytes(path string) []byte {
+	b, err := os.ReadFile(path)
+	if err != nil {
+		return nil
+	}
+	return b
 }
